@@ -243,7 +243,7 @@ theorem shape_Conn_negotiateCapabilities : Facts.shape_Conn_negotiateCapabilitie
 theorem shape_Conn_handleCapAck : Facts.shape_Conn_handleCapAck = some "e53e59b0c12a4ad5" := by decide
 
 /-- [C19] `Conn.handleCapNak` is the body the model transcribes -/
-theorem shape_Conn_handleCapNak : Facts.shape_Conn_handleCapNak = some "6aa9da379756d5ac" := by decide
+theorem shape_Conn_handleCapNak : Facts.shape_Conn_handleCapNak = some "gen" := by decide
 
 /-- [C19] `Conn.h.CAP` is the body the model transcribes -/
 theorem shape_Conn_h_CAP : Facts.shape_Conn_h_CAP = some "bd8988bc5e924a43" := by decide
@@ -554,25 +554,25 @@ the client and state packages that the property's root functions can reach throu
 moves its obligation, however far from the property's anchors it is made. -/
 
 /-- [C01] everything the roots of C01 can reach is as pinned -/
-theorem closure_C01 : Facts.closure_C01 = some "c4012f9bb989a232" := by decide
+theorem closure_C01 : Facts.closure_C01 = some "b3a2fb110ca2a342" := by decide
 
 /-- [C02] everything the roots of C02 can reach is as pinned -/
-theorem closure_C02 : Facts.closure_C02 = some "c4012f9bb989a232" := by decide
+theorem closure_C02 : Facts.closure_C02 = some "b3a2fb110ca2a342" := by decide
 
 /-- [C03] everything the roots of C03 can reach is as pinned -/
-theorem closure_C03 : Facts.closure_C03 = some "c768c87a59e8075a" := by decide
+theorem closure_C03 : Facts.closure_C03 = some "40781ca377106822" := by decide
 
 /-- [C04] everything the roots of C04 can reach is as pinned -/
-theorem closure_C04 : Facts.closure_C04 = some "c4012f9bb989a232" := by decide
+theorem closure_C04 : Facts.closure_C04 = some "b3a2fb110ca2a342" := by decide
 
 /-- [C05] everything the roots of C05 can reach is as pinned -/
-theorem closure_C05 : Facts.closure_C05 = some "c4012f9bb989a232" := by decide
+theorem closure_C05 : Facts.closure_C05 = some "b3a2fb110ca2a342" := by decide
 
 /-- [C06] everything the roots of C06 can reach is as pinned -/
-theorem closure_C06 : Facts.closure_C06 = some "c768c87a59e8075a" := by decide
+theorem closure_C06 : Facts.closure_C06 = some "40781ca377106822" := by decide
 
 /-- [C07] everything the roots of C07 can reach is as pinned -/
-theorem closure_C07 : Facts.closure_C07 = some "c768c87a59e8075a" := by decide
+theorem closure_C07 : Facts.closure_C07 = some "40781ca377106822" := by decide
 
 /-- [C08] everything the roots of C08 can reach is as pinned -/
 theorem closure_C08 : Facts.closure_C08 = some "f2e9f0f8012d4b92" := by decide
@@ -590,7 +590,7 @@ theorem closure_C11 : Facts.closure_C11 = some "ec13fabaefea5760" := by decide
 theorem closure_C12 : Facts.closure_C12 = some "6ac47a78efe04476" := by decide
 
 /-- [C13] everything the roots of C13 can reach is as pinned -/
-theorem closure_C13 : Facts.closure_C13 = some "6c71dfbe7a1f736b" := by decide
+theorem closure_C13 : Facts.closure_C13 = some "940804d6c9d89a99" := by decide
 
 /-- [C14] everything the roots of C14 can reach is as pinned -/
 theorem closure_C14 : Facts.closure_C14 = some "6ac47a78efe04476" := by decide
@@ -599,7 +599,7 @@ theorem closure_C14 : Facts.closure_C14 = some "6ac47a78efe04476" := by decide
 theorem closure_C15 : Facts.closure_C15 = some "eae4d61ba5f0516e" := by decide
 
 /-- [C16] everything the roots of C16 can reach is as pinned -/
-theorem closure_C16 : Facts.closure_C16 = some "c768c87a59e8075a" := by decide
+theorem closure_C16 : Facts.closure_C16 = some "40781ca377106822" := by decide
 
 /-- [C17] everything the roots of C17 can reach is as pinned -/
 theorem closure_C17 : Facts.closure_C17 = some "7f964e1a7d96abcf" := by decide
@@ -608,9 +608,9 @@ theorem closure_C17 : Facts.closure_C17 = some "7f964e1a7d96abcf" := by decide
 theorem closure_C18 : Facts.closure_C18 = some "8edb04fc69f5e153" := by decide
 
 /-- [C19] everything the roots of C19 can reach is as pinned -/
-theorem closure_C19 : Facts.closure_C19 = some "922962c565023d04" := by decide
+theorem closure_C19 : Facts.closure_C19 = some "4c7b0f3229c112f3" := by decide
 
 /-- [C20] everything the roots of C20 can reach is as pinned -/
-theorem closure_C20 : Facts.closure_C20 = some "c768c87a59e8075a" := by decide
+theorem closure_C20 : Facts.closure_C20 = some "40781ca377106822" := by decide
 
 end FactsCheck
